@@ -404,7 +404,7 @@ const TOKENS: [&str; 19] = ["x", "y", "2", ".5", "1e1", "pi", "e", "sin", "f", "
 
 fn mutate(r: &mut Rng, s: &str) -> String {
     let mut cs: Vec<char> = s.chars().collect();
-    let alphabet: Vec<char> = "xy2.5e()+-*/^ sinpfq,[]1".chars().collect();
+    let alphabet: Vec<char> = "xy2.5e()+-*/^ sinpfq,[]1×⋅÷·∗∕−".chars().collect();
     let n = 1 + r.below(2);
     for _ in 0..n {
         if cs.is_empty() { cs.push(*r.pick(&alphabet)); continue; }
@@ -420,7 +420,7 @@ fn mutate(r: &mut Rng, s: &str) -> String {
 }
 
 fn random_unicode(r: &mut Rng) -> String {
-    let pool: Vec<char> = "xyπé２٣ \u{a0}\u{2003}()+-*/^.e0123456789sincoabtlnqrpE\u{0}\u{7f}\u{fffd}😀ⅷ½".chars().collect();
+    let pool: Vec<char> = "xyπé２٣ \u{a0}\u{2003}()+-*/^.e0123456789sincoabtlnqrpE\u{0}\u{7f}\u{fffd}😀ⅷ½×⋅÷·∗∕−＋＊／＾".chars().collect();
     let n = r.below(24) as usize;
     (0..n).map(|_| *r.pick(&pool)).collect()
 }
@@ -498,7 +498,8 @@ pub fn run_parse(o: &Opts) -> Report {
     for s in ["a", "2^3^2", "2^-3", "-2^2", "2-3-4", "8/4/2", "8/4*2", "-x^2", "x^-y^2", "2**-2", "2**3^2", "(2**3)^2", "2^3**2", "--x", "-(-x)", "x--y", "x+-y", "x*-y", "x/-y", "x^-y",
               "", "(", ")", "()", "(x", "x)", "x+", "+x", "*x", "x*", "x**", "x**y", "x**2.5", "x** 2", "sin", "sin x", "sin()", "x(2)", "pi(2)", "2x", "x y", "x 2", "2 3", "2e", "2e+", "1e5", "1.e1", "1..2", ".", "+5", "2++5", "2-+5", "2+-5", "+-5", "-+5",
               "inf", "nan", "infinity", "INF", "NaN", "info", "nano", "x**2147483647", "x**2147483648", "x**-2147483648", "x**-2147483649", "x**+3", "x**00000000000000000003",
-              "1e999999999999", "1e-999999999999", "0.000000000000000000000000000000000000000000001e45", "x^", "x^*y", "x^^y", "2^(3", "sin(x))", "((x))", "( ( x ) + ( y ) )", "é", "x\u{2003}+\u{a0}y", "x\u{200b}+y", "１", "x+٣"] {
+              "1e999999999999", "1e-999999999999", "0.000000000000000000000000000000000000000000001e45", "x^", "x^*y", "x^^y", "2^(3", "sin(x))", "((x))", "( ( x ) + ( y ) )", "é", "x\u{2003}+\u{a0}y", "x\u{200b}+y", "１", "x+٣",
+              "x⋅y", "x×y", "x÷y", "x·y", "x−y", "x∗y", "x∕y", "2⋅3", "(x)⋅(y)", "sin(x)×2", "x＋y", "x＊y", "x＾2"] {
         cases.push(PCase { arity: 2, items: items2.clone(), src: s.to_string(), expect: None, kind: "corpus" });
     }
     // 6b. KNOWN FINDING (known_findings.jsonl): a registered name with a case-insensitive nan/inf prefix is
